@@ -336,7 +336,13 @@ func vfC07IngestAPI(t *testing.T, r *rep.R) {
 					if rng.Intn(2) == 0 {
 						resp := vfDo(s, "GET", fmt.Sprintf("/api/cmaf-ingests/%d/step", id), nil, nil)
 						if resp.Code != 200 {
-							r.Violation("ingest-api:step-on-own-session-status", map[string]any{"id": id, "status": resp.Code})
+							// a session that ended because an upload to the receiver failed is not live any more: its report says so
+							info := vfDo(s, "GET", fmt.Sprintf("/api/cmaf-ingests/%d", id), nil, nil)
+							if resp.Code == 410 && (strings.Contains(string(info.Body), "rror") || strings.Contains(string(info.Body), "ailed")) {
+								r.Inconclusive("ingest-api:session-ended-by-upload-error")
+							} else {
+								r.Violation("ingest-api:step-on-own-session-status", map[string]any{"id": id, "status": resp.Code, "session_info": vfTrunc(info.Body, 600)})
+							}
 						}
 					}
 					simple(g, "info", "GET", fmt.Sprintf("/api/cmaf-ingests/%d", id), id)
